@@ -221,7 +221,8 @@ def main(pid, tier="quick", seed=0, replay=None):
             if len(seen_keys) > 60:
                 break
             kf = [k for k in known if k.get("bounded") == b["name"] and (
-                not k.get("witness_key") or k.get("witness_key") == w.get("key"))]
+                k.get("witness_key") == w.get("key") if k.get("witness_key") else (
+                    bool(k.get("witness_key_prefix")) and str(w.get("key", "")).startswith(k["witness_key_prefix"])))]
             if kf:
                 lines.append("KNOWN-FINDING: property=%s %s [%s]" % (pid, kf[0].get("what", ""), b["name"]))
                 known_hit.append({"bounded": b["name"], "finding": kf[0].get("id")})
